@@ -4,7 +4,8 @@ import copy
 from vf import gen
 
 PROP = 'C13'
-PATTERNS = ['inc', 'dec', 'const', 'zigzag', 'near0.5', 'near1', 'near2', 'single', 'nan', 'inf', 'steps', 'wrap']
+PATTERNS = ['inc', 'dec', 'const', 'zigzag', 'near0.5', 'near1', 'near2', 'single', 'nan', 'inf', 'steps', 'decsteps',
+            'wrap', 'plateau']
 META = {
     'level': 'exploration',
     'rule': ('one evaluation = one frame of a written file whose decoded INDEX-MIN/INDEX-MAX/SPACING/DIRECTION are compared '
@@ -84,6 +85,14 @@ def index_values(r, dt, pat, n):
             v[-1] = float('inf')
     elif pat == 'steps':
         v = [start + k * step + (step if k >= n // 2 else 0) * 3 for k in range(n)]
+    elif pat == 'decsteps':
+        # decreasing, clearly non-uniform: DIRECTION must say DECREASING
+        base_ = [k * step + (step if k >= n // 2 else 0) * 3 for k in range(n)]
+        top = (start + base_[-1]) if isf else min(int(info.max), start + base_[-1])
+        v = [top - b_ for b_ in base_]
+    elif pat == 'plateau':
+        # weakly monotonic with repeated values (differences 0 and step)
+        v = [start + (k // 2) * step * (2 if k > n // 2 else 1) for k in range(n)]
     elif pat == 'wrap':
         # unsigned / narrow integers whose differences do not fit the dtype
         if isf:
